@@ -277,7 +277,7 @@ Progs ==
       [] ProgSel = 3 -> {[r \in {"r1", "r2"} |-> IF r = "r1" THEN P(0, 1, s) ELSE b] :
                           s \in ScriptsOver(VocabCond, MaxLen), b \in R2Bodies}
       [] ProgSel = 4 -> {[r \in {"r1", "r2"} |-> IF r = "r1" THEN P(1, 0, s) ELSE b] :
-                          s \in ScriptsOver({x \in VocabNest : x.op # "yn"} \cup {I("raise", "", 0, 0), I("alw", "", 2, 0)}, MaxLen),
+                          s \in ScriptsOver({x \in VocabNest : x.op \notin {"yn", "embed"}} \cup {I("raise", "", 0, 0), I("alw", "", 2, 0)}, MaxLen),
                           b \in R2Bodies}
       [] ProgSel = 6 -> {[r \in {"r1", "r2", "r3"} |-> P(0, 1, IF r = "r1" THEN s1 ELSE IF r = "r2" THEN s2 ELSE s3)] :
                           s1 \in ScriptsOver({I("yn", "", 8, 0), I("next", "r2", 0, 0), I("next", "r2", 0, 1), I("embed", "r2", 0, 0)}, MaxLen),
